@@ -129,6 +129,73 @@ fn one_case(run: &Run, case: u64) {
             }
         }
     }
+    // the same for a version stitched from an interrupted backup: change the tree (entries
+    // under several subtrees disappear, others appear), back up with small hunks, kill the backup
+    // before one of its last writes, and list every S of the stitched version
+    {
+        let mut spec2 = spec.clone();
+        let victims: Vec<String> = spec2.keys().filter(|k| k.as_str() != "/").cloned().collect();
+        for _ in 0..(1 + victims.len() / 4) {
+            let v = rng.pick(&victims).clone();
+            let keys: Vec<String> = spec2.keys().filter(|k| is_under(k, &v)).cloned().collect();
+            for k in keys {
+                spec2.remove(&k);
+            }
+        }
+        let dirs2: Vec<String> = spec2.iter().filter(|(_, n)| n.kind == Kind::Dir).map(|(p, _)| p.clone()).collect();
+        for i in 0..3 {
+            let d = rng.pick(&dirs2).clone();
+            let ap = child_of(&d, *rng.pick(NAMES12));
+            if !spec2.contains_key(&ap) {
+                let mut n = Node::file(gen_content(&mut rng, 5 + i));
+                n.mtime_s = 1_600_000_000 + i as i64;
+                spec2.insert(ap, n);
+            }
+        }
+        tree::sync_to_disk(Some(&spec), &spec2, &src).expect("sync");
+        let o2 = Opts { hunk: *rng.pick(&[1usize, 2, 3]), block: 64, cap: 16 };
+        let probe = sc.join("probe");
+        crate::fmt06::copy_dir(&arch, &probe);
+        let ic = crate::icept::Icept::new(&probe, crate::icept::Mode::Log, 0);
+        let _ = cs::backup(ic.transport(1), &src, o2, &[], None);
+        let writes = ic.log().iter().filter(|e| e.verb == crate::icept::V::Write).count();
+        crate::scratch::rm(&probe);
+        // kill before one of the last three writes (the tail or one of the last hunks/blocks)
+        let nth = writes.saturating_sub(1 + rng.below(3) as usize);
+        let arch2 = sc.join("arch2");
+        crate::fmt06::copy_dir(&arch, &arch2);
+        let ic = crate::icept::Icept::new(&arch2, crate::icept::Mode::CrashAtWrite { nth }, 0);
+        let _ = cs::backup(ic.transport(1), &src, o2, &[], None);
+        let raw = crate::fmt06::read_archive(&arch2, false);
+        if raw.bands.get(&1).map(|b| b.head.is_some() && !b.complete() && !b.hunks.is_empty()).unwrap_or(false) {
+            let full2 = cs::list(cs::local(&arch2), Some(1), "/", &[]);
+            if let Some(full2) = full2.value() {
+                run.count("stitched_versions_listed", 1);
+                let full2_paths: Vec<&str> = full2.iter().map(|e| e.apath.as_str()).collect();
+                let mut ss: Vec<String> = full2_paths.iter().map(|s| s.to_string()).collect();
+                ss.extend(snap.keys().cloned());
+                ss.sort();
+                ss.dedup();
+                for s in &ss {
+                    let l = cs::list(cs::local(&arch2), Some(1), s, &[]);
+                    run.eval();
+                    run.count("stitched_subtree_listings_compared", 1);
+                    let want: Vec<&str> = full2_paths.iter().copied().filter(|p| is_under(p, s)).collect();
+                    let got: Option<Vec<&str>> = l.value().map(|v| v.iter().map(|e| e.apath.as_str()).collect());
+                    if got.as_ref() != Some(&want) {
+                        run.violation(
+                            "subtree-listing-differs:stitched-version",
+                            format!("interrupted version (killed before write #{nth}), subtree {s:?}: listed {got:?}, the full listing filtered gives {want:?}"),
+                            json!({"case": case, "stitched": true, "subtree": s}),
+                        );
+                        return;
+                    }
+                }
+            }
+        }
+        // put the source back as it was for the restore part
+        tree::sync_to_disk(Some(&spec2), &spec, &src).expect("sync");
+    }
     // restore: S over the directories
     let full_dest = sc.join("full");
     let r = cs::restore(cs::local(&arch), Some(0), &full_dest, None, &[], false);
@@ -187,9 +254,9 @@ pub fn run(tier: Tier, replay: Option<Value>) -> i32 {
     let run = Run::new("C12", "exploration", tier, replay);
     run.par_cases(tier.pick(400, 30000), super::threads(), |c| one_case(&run, c));
     run.finish(
-        "generated trees over names with multi-byte characters and siblings extending one another ('/a','/ab','/a.b','/a b','/é','/éa','/é.b','/日','/日本',...), depth <= 4; listing: S over EVERY entry of the tree plus non-existent paths (children, and names extended by 'é'/'0'): iter_entries(version, S) must equal the entries of the full listing that are S or lie under S by whole components, in order and unmodified; restoring: S over every directory: no error, everything under dest/S identical (bytes, mtime ns, mode, owner) to the same subtree of a full restore, and outside S nothing but the ancestor directories of S. Non-trivial = tree has a non-empty directory with a multi-byte name or a sibling extending another name.",
+        "generated trees over names with multi-byte characters and siblings extending one another ('/a','/ab','/a.b','/a b','/é','/éa','/é.b','/日','/日本',...), depth <= 4; listing: S over EVERY entry of the tree plus non-existent paths (children, and names extended by 'é'/'0'): iter_entries(version, S) must equal the entries of the full listing that are S or lie under S by whole components, in order and unmodified — also for a version stitched from a second backup that was killed before one of its last writes after entries under several subtrees were removed and added; restoring: S over every directory: no error, everything under dest/S identical (bytes, mtime ns, mode, owner) to the same subtree of a full restore, and outside S nothing but the ancestor directories of S. Non-trivial = tree has a non-empty directory with a multi-byte name or a sibling extending another name.",
         &["full listing and full restore are the reference (their own correctness is C01/C11)"],
         None,
-        &[("subtree_listings_compared", 200), ("subtree_restores_compared", 50), ("trees_with_nonempty_multibyte_dir", 5), ("trees_with_sibling_extending_a_name", 5)],
+        &[("subtree_listings_compared", 200), ("stitched_subtree_listings_compared", 100), ("subtree_restores_compared", 50), ("trees_with_nonempty_multibyte_dir", 5), ("trees_with_sibling_extending_a_name", 5)],
     )
 }
